@@ -305,7 +305,7 @@ def gen_invpair(asm, args):
     for names in (fnames, inames):
         res = fres if names is fnames else ires
         for g, (gname, invar, ss) in names.items():
-            body = ["broadcast use vx_wrapping_bridge;"]
+            body = ["broadcast use vxp::vx_wrapping_bridge;"]
             for st in ss:
                 acc = []
                 collect(st.node, acc)
